@@ -320,4 +320,30 @@ example : (Model.run cfg0 Follower.empty [syn4, late6]).1.streams.length = 1 ∧
     (Model.run cfg0 Follower.empty [syn4, late6]).2.flatten.length = 3 := by
   decide
 
+/-! ## 8. refinement with collisions excluded only among live connections -/
+
+/-- no packet of the capture belongs to a connection whose identifier coincides with that of a *different* connection
+    that is live (in the reference table) at the moment the packet arrives -/
+def NoLiveCollision (cfg : Cfg) (h : List Pkt) : Prop :=
+  Tins.SF.NoLiveCollision cfg RefKey.ident refKeyOf RefKey.lt Follower.empty h
+
+/-- The sharper form of `trace_refines_reference_partial` (the design's statement): the follower's callback trace is the
+    reference trace on every capture in which no two *simultaneously live* connections collide under the identifier. -/
+theorem trace_refines_reference_live (cfg : Cfg) (h : List Pkt) (hc : NoLiveCollision cfg h) :
+    (Model.run cfg Follower.empty h).2 = (Ref.run cfg Follower.empty h).2.map (List.map (Ev.mapKey RefKey.ident)) := by
+  unfold Model.run Ref.run
+  rw [identOf_eq]
+  exact (run_simLive cfg RefKey.ident refKeyOf Ident.lt RefKey.lt (fun _ _ => rfl) h Follower.empty Follower.empty
+    ⟨rfl, rfl, by intro a b ha; cases ha⟩ hc).2
+
+/-- non-vacuity: the IPv4 connection is reset before its IPv6 twin starts — a cross-family twin pair, yet never live together -/
+example : NoLiveCollision cfg0 [syn4, rst4, syn6] ∧ ¬ CollisionFree [syn4, rst4, syn6] := by
+  refine ⟨?_, ?_⟩
+  · unfold NoLiveCollision
+    simp only [Tins.SF.NoLiveCollision]
+    refine ⟨by decide, by decide, by decide, trivial⟩
+  · intro h
+    have := h syn4 List.mem_cons_self syn6 (List.mem_cons_of_mem _ (List.mem_cons_of_mem _ List.mem_cons_self)) (by decide)
+    revert this; decide
+
 end Tins.Props.C07
